@@ -199,7 +199,7 @@ def conc_mask(case):
 
 def jobs(tier, seed):
     q = tier == "quick"
-    base = dict(R=3 if q else 4, L=3, B=3 if q else 5)
+    base = dict(R=3, L=3, B=3 if q else 4)          # thorough widens bounds, steps and selector kinds; a fourth row is added by dedicated jobs only
     out = []
     sl = dict(rk="slice", rstep=None, rpres=[(1, 0)], RB=3, R=2 if q else 3)
     rowkinds = [dict(rk="all"), dict(rk="int"), dict(rk="mask"), dict(rk="list", k=2), sl]
